@@ -330,6 +330,44 @@ def check_gather(vt, lazy, xts, policy) -> Optional[dict]:
     return None
 
 
+def nested_caches() -> Optional[dict]:
+    """A cache around a validator that itself contains cached validators: every wrapper, at every level, looks its
+    own input up, runs its validator exactly on a miss and stores exactly that result - also while an outer
+    wrapper's call is in progress."""
+    from koda_validate import IntValidator, ListValidator, MapValidator, StringValidator
+    for mode in ("sync", "async"):
+        for policy in ("id", "eq"):
+            ct = Ctx(G.STD_CLASSES, []).ct
+            c_item = Counting(IntValidator())
+            item = LogCache(c_item, policy, ct)
+            c_key = Counting(StringValidator())
+            key = LogCache(c_key, policy, ct)
+            c_outer = Counting(ListValidator(MapValidator(key=key, value=item)))
+            outer = LogCache(c_outer, policy, ct)
+            one = 1
+            xs = [[{"a": one, "b": one}], [{"a": one, "b": "x"}], [{"a": one}]]
+            xs.append(xs[0])
+            for x in xs:
+                try:
+                    r = outer(x) if mode == "sync" else drive(outer.validate_async(x))
+                except Exception as e:  # noqa
+                    return {"signature": "C20:nested", "what": f"nested cache wrappers ({mode}, {policy}) raised {e!r} on {x!r}"}
+                exp = c_outer.inner(x) if False else None
+            for name, cache, cnt in (("item", item, c_item), ("key", key, c_key), ("outer", outer, c_outer)):
+                gets = [ev for ev in cache.log if ev[0] == "get"]
+                misses = [ev for ev in gets if not ev[2]]
+                sets = [ev for ev in cache.log if ev[0] == "set"]
+                if len(cnt.runs) != len(misses) or len(sets) != len(misses):
+                    return {"signature": "C20:nested",
+                            "what": f"nested cache wrappers ({mode}, {policy} store): the {name} wrapper had {len(gets)} lookups, {len(misses)} misses, "
+                                    f"{len(sets)} stores and its validator ran {len(cnt.runs)} times"}
+            # every element reached its own wrapper: 1 looked up 5 times as a value ... (at least once per occurrence)
+            if len([ev for ev in item.log if ev[0] == "get"]) < 5 or len([ev for ev in key.log if ev[0] == "get"]) < 5:
+                return {"signature": "C20:nested", "what": f"nested cache wrappers ({mode}, {policy} store): inner wrappers were bypassed: "
+                                                            f"item lookups {len([ev for ev in item.log if ev[0] == 'get'])}, key lookups {len([ev for ev in key.log if ev[0] == 'get'])}"}
+    return None
+
+
 def run(tier: str, rng: random.Random, proof_ok: bool) -> dict:
     t0 = time.time()
     violations: List[dict] = []
@@ -433,6 +471,10 @@ def run(tier: str, rng: random.Random, proof_ok: bool) -> dict:
                         seen.add(r["signature"])
                         violations.append({"kind": "oracle", **r,
                                            "replay_case": {"v": to_json(vt), "lazy": to_json(LAZYV), "ops": [[m, to_json(x)] for m, x in ops], "policy": policy}})
+    nc = nested_caches()
+    if nc and nc["signature"] not in seen:
+        seen.add(nc["signature"])
+        violations.append({"kind": "oracle", **nc, "replay_case": {"nested": True}})
     # (d) correspondence: the model's history function on the same histories
     mism, n_coq = model_histories(coq_items, violations)
     cov = {"evaluations": n_hist + n_sched, "distinct_nontrivial": n_hist + n_inter,
@@ -523,6 +565,10 @@ def replay(path: str) -> int:
     if not rc:
         print("no input in replay file:", j.get("what"))
         return 1
+    if rc.get("nested"):
+        r = nested_caches()
+        print("violation:" if r else "property holds for nested cache wrappers", r["what"] if r else "")
+        return 1 if r else 0
     vt = from_json(rc["v"])
     lazy = from_json(rc.get("lazy", []))
     if rc.get("interleaving"):
